@@ -22,9 +22,24 @@ def mods():
     return common.imp("eolib.data.eo_writer"), common.imp("eolib.data.eo_reader")
 
 
+# sizes at which buffers, windows, tables and one-byte counters of an implementation end: block sizes +-1, the EO char
+# limit, a byte, and a few far beyond (a chunk longer than a scan window, a padding longer than a precomputed filler)
+BIG_SIZES = [15, 16, 17, 31, 32, 33, 63, 64, 65, 127, 128, 129, 252, 253, 254, 255, 256, 257, 300, 511, 512, 513, 1000, 1024, 4100]
+SIZE_BOOST = False   # set by a check whose source tie was not established / whose sources changed: sizes are probed harder
+
+
+def big_size(rng) -> int | None:
+    """now and then (2% of the draws, 12% when boosted) one of the big sizes"""
+    if rng.random() < (0.12 if SIZE_BOOST else 0.02):
+        return rng.choice(BIG_SIZES)
+    return None
+
+
 def rand_string(rng, maxlen=8, alpha=None) -> str:
     alpha = alpha or ALPHA
-    n = rng.choice([0, 1, 2, 3, rng.randrange(0, maxlen + 1)])
+    n = big_size(rng)
+    if n is None:
+        n = rng.choice([0, 1, 2, 3, rng.randrange(0, maxlen + 1)])
     return "".join(rng.choice(alpha) for _ in range(n))
 
 
